@@ -29,7 +29,11 @@ PRE_VARIANTS = {
                     dict(inject=('cleanup', 'including missing-file.xly'))],
     # exits non-zero; cannot be executed: no such program, a file that is not executable
     'preproc': [dict(pre_argv=['--preprocessor', 'false']), dict(pre_argv=['--preprocessor', '/does/not/exist/preprocessor']),
-                dict(pre_argv=['--preprocessor', './c.case'])],
+                dict(pre_argv=['--preprocessor', './c.case']),
+                # ... or does not exit at all: killed by a signal, after it has written a complete test case / nothing
+                dict(pre_argv=['--preprocessor', 'sh kill-self.sh'],
+                     files={'kill-self.sh': 'cat "$1"\nkill -KILL $$\n'}),
+                dict(pre_argv=['--preprocessor', 'sh term-self.sh'], files={'term-self.sh': 'kill -TERM $$\n'})],
     'syntax': [dict(inject=('setup', 'no-such-instruction x')), dict(inject=('cleanup', 'verif-stub SYNTAX')),
                dict(inject=('assert', "exit-code == 'unterminated")), dict(append='[no-such-phase]\n')],
 }
@@ -89,7 +93,7 @@ def concretize(run):
         argv = v.get('argv')
         if argv is None:
             argv = v.get('pre_argv', []) + ['c.case']
-        variants.append(dict(files={'c.case': text}, argv=flag + argv))
+        variants.append(dict(files=dict(v.get('files', {}), **{'c.case': text}), argv=flag + argv))
     return variants
 
 
